@@ -800,6 +800,8 @@ def string_routes(s, fresh_only=False):
           ("string-copy-range", "(string-copy %s 1 %d)" % (str_text("\U0001f600" + s + "λ"), 1 + n), False),
           ("utf8->string-offset", "(utf8->string (bytevector 1 2 %s 3) 2 %d)" % (" ".join(str(b) for b in s.encode("utf-8")), 2 + len(s.encode("utf-8"))), False),
           ("utf8->string", "(utf8->string (bytevector %s))" % " ".join(str(b) for b in s.encode("utf-8")), False),
+          # (chibi io): the string SHARES the bytevector's store at an offset (no copy)
+          ("utf8->string!-shared", "(utf8->string! (bytevector 1 2 %s 3) 2 %d)" % (" ".join(str(b) for b in s.encode("utf-8")), 2 + len(s.encode("utf-8"))), False),
           ("output-port", "(let ((p (open-output-string))) (write-string %s p) (write-string %s p) (get-output-string p))" % (str_text(s[:n // 2]), str_text(s[n // 2:])), False),
           ("read-line", "(read-line (open-input-string %s))" % str_text(s + "\nrest"), False) if n else
           ("read-string-0", "(let ((x (read-string 0 (open-input-string \"abc\")))) (if (string? x) x \"\"))", False),
@@ -1040,6 +1042,7 @@ def exp_eqv(a, b):
 
 
 COH_PRELUDE = """(import (scheme base) (scheme write) (scheme char) (scheme inexact) (scheme complex) (scheme read) (srfi 69)
+        (only (chibi io) utf8->string!)
         (rename (only (chibi) equal?) (equal? native-equal?)))
 """ + RECORD_DEFS + """
 (define write write-simple)
